@@ -7,7 +7,7 @@ import VaxisModel.Model.WrapObj
 import VaxisModel.Lemmas.Wrap
 
 namespace VaxisModel.Lemmas.WrapObj
-open VaxisModel.Model.Wrap VaxisModel.Model.WrapObj
+open VaxisModel.Model.Wrap VaxisModel.Model.WrapObj VaxisModel.Lemmas.Wrap
 
 def Res.toScan {σ : Type} : Res σ → Scan σ
   | .stop _ => .stop
@@ -127,5 +127,126 @@ theorem reach_own {σ : Type} (o : σ → List Cell → Nat × Bool × σ) (ini 
     · rename_i s0 s1 _ _
       exact scanObjLoop_own o ini width _ { s0 with token := [] } _ _ ih hs
 
+
+/-! ### the state as a function of the text that is left -/
+
+/-- on the segmenter's path from the START of `text` (no reset in between) -/
+def OwnFrom {σ : Type} (o : σ → List Cell → Nat × Bool × σ) (ini : σ) (text rest : List Cell) (st : σ) : Prop :=
+  ∃ k, (rest, st) = chain o k text ini
+
+theorem chain_add {σ : Type} (o : σ → List Cell → Nat × Bool × σ) : ∀ (a b : Nat) (r : List Cell) (s : σ),
+    chain o (a + b) r s = chain o b (chain o a r s).1 (chain o a r s).2 := by
+  intro a
+  induction a with
+  | zero => intro b r s; simp [chain]
+  | succ n ih => intro b r s; rw [Nat.succ_add]; simp only [chain]; exact ih b _ _
+
+theorem chain_len_le {σ : Type} (o : σ → List Cell → Nat × Bool × σ) : ∀ (k : Nat) (r : List Cell) (s : σ),
+    (chain o k r s).1.length ≤ r.length := by
+  intro k
+  induction k with
+  | zero => intro r s; simp [chain]
+  | succ n ih =>
+    intro r s
+    simp only [chain]
+    have := ih (r.drop (o s r).1) (o s r).2.2
+    simp only [List.length_drop] at this
+    omega
+
+/-- with non-empty segments the path moves: a later point of the path has strictly less text left, as long as text is left -/
+theorem chain_len_lt {σ : Type} (o : σ → List Cell → Nat × Bool × σ) (hok : OracleOK o) : ∀ (k : Nat) (r : List Cell) (s : σ),
+    0 < k → r ≠ [] → (chain o k r s).1.length < r.length := by
+  intro k r s hk hr
+  cases k with
+  | zero => omega
+  | succ n =>
+    simp only [chain]
+    have h1 := (hok s r hr).1
+    have h2 := chain_len_le o n (r.drop (o s r).1) (o s r).2.2
+    simp only [List.length_drop] at h2
+    have : 0 < r.length := by cases r with | nil => exact absurd rfl hr | cons a b => simp
+    omega
+
+/-- **the state is a function of the text that is left** (equivalently: of the text consumed): two points of the segmenter's
+path from the start of the same text with the same non-empty rest carry the same state -/
+theorem chain_state_unique {σ : Type} (o : σ → List Cell → Nat × Bool × σ) (hok : OracleOK o) (ini : σ) (text rest : List Cell)
+    (st1 st2 : σ) (h1 : OwnFrom o ini text rest st1) (h2 : OwnFrom o ini text rest st2) (hne : rest ≠ []) : st1 = st2 := by
+  obtain ⟨k1, e1⟩ := h1
+  obtain ⟨k2, e2⟩ := h2
+  have key : ∀ (a b : Nat) (s1 s2 : σ), a ≤ b → (rest, s1) = chain o a text ini → (rest, s2) = chain o b text ini → s1 = s2 := by
+    intro a b s1 s2 hab ea eb
+    obtain ⟨d, rfl⟩ := Nat.exists_eq_add_of_le hab
+    rw [chain_add, ← ea] at eb
+    cases d with
+    | zero => simp only [chain] at eb; exact (Prod.mk.inj eb).2.symm ▸ rfl
+    | succ n =>
+      have := chain_len_lt o hok (n + 1) rest s1 (Nat.succ_pos _) hne
+      simp only at eb
+      rw [← eb] at this
+      exact absurd this (Nat.lt_irrefl _)
+  rcases Nat.le_total k1 k2 with h | h
+  · exact key k1 k2 st1 st2 h e1 e2
+  · exact (key k2 k1 st2 st1 h e2 e1).symm
+
+/-- one `Scan` keeps the scanner on the path from the start of the text — unless it splits a long word, which resets the state -/
+theorem scanObjLoop_ownFrom {σ : Type} (o : σ → List Cell → Nat × Bool × σ) (ini : σ) (width : Nat) (text : List Cell) :
+    ∀ (fuel : Nat) (s s' : Obj σ) (w : Nat), OwnFrom o ini text s.rest s.state →
+      scanObjLoop false o ini width fuel s w = .line s' → OwnFrom o ini text s'.rest s'.state ∨ s'.state = ini := by
+  intro fuel
+  have step : ∀ {r : List Cell} {st : σ}, OwnFrom o ini text r st → OwnFrom o ini text (r.drop (o st r).1) (o st r).2.2 := by
+    intro r st ⟨k, hk⟩
+    exact ⟨k + 1, by rw [chain_succ_end, ← hk]⟩
+  induction fuel with
+  | zero => intro s s' w _ h; simp [scanObjLoop] at h
+  | succ n ih =>
+    intro s s' w hown h
+    simp only [scanObjLoop, Bool.false_eq_true, if_false] at h
+    split at h
+    · injection h with h; subst h; exact .inr rfl
+    · split at h
+      · injection h with h; subst h; exact .inl hown
+      · split at h
+        · injection h with h; subst h; exact .inl (step hown)
+        · split at h
+          · injection h with h; subst h; exact .inl (step hown)
+          · exact ih _ _ _ (step hown) h
+
+/-- every word the segmenter can return fits the line: the long-word branch (the only place that resets the state) is never taken -/
+def WordsFit {σ : Type} (o : σ → List Cell → Nat × Bool × σ) (width : Nat) : Prop :=
+  ∀ (st : σ) (rest : List Cell), ¬ sumW (trimRight (rest.take (o st rest).1)) > width
+
+theorem scanObjLoop_ownFrom_fit {σ : Type} (o : σ → List Cell → Nat × Bool × σ) (ini : σ) (width : Nat) (text : List Cell)
+    (hfit : WordsFit o width) :
+    ∀ (fuel : Nat) (s s' : Obj σ) (w : Nat), OwnFrom o ini text s.rest s.state →
+      scanObjLoop false o ini width fuel s w = .line s' → OwnFrom o ini text s'.rest s'.state := by
+  intro fuel
+  have step : ∀ {r : List Cell} {st : σ}, OwnFrom o ini text r st → OwnFrom o ini text (r.drop (o st r).1) (o st r).2.2 := by
+    intro r st ⟨k, hk⟩
+    exact ⟨k + 1, by rw [chain_succ_end, ← hk]⟩
+  induction fuel with
+  | zero => intro s s' w _ h; simp [scanObjLoop] at h
+  | succ n ih =>
+    intro s s' w hown h
+    simp only [scanObjLoop, Bool.false_eq_true, if_false] at h
+    split at h
+    · rename_i hlong; exact absurd hlong (hfit s.state s.rest)
+    · split at h
+      · injection h with h; subst h; exact hown
+      · split at h
+        · injection h with h; subst h; exact step hown
+        · split at h
+          · injection h with h; subst h; exact step hown
+          · exact ih _ _ _ (step hown) h
+
+theorem reach_ownFrom {σ : Type} (o : σ → List Cell → Nat × Bool × σ) (ini : σ) (width : Nat) (text : List Cell)
+    (hfit : WordsFit o width) (s : Obj σ) (h : Reach o ini width text s) : OwnFrom o ini text s.rest s.state := by
+  induction h with
+  | new => exact ⟨0, rfl⟩
+  | scan _ hs ih =>
+    unfold scanObj at hs
+    split at hs
+    · cases hs
+    · rename_i s0 s1 _ _
+      exact scanObjLoop_ownFrom_fit o ini width text hfit _ { s0 with token := [] } _ _ ih hs
 
 end VaxisModel.Lemmas.WrapObj
